@@ -104,9 +104,9 @@ class EffectEngine:
             if "Sender::<Datagram>" in path:
                 return {"dgram-dispatch" if kind == "try" else "dgram-dispatch-blocking"}
             if "Sender::<stream::MuxStream>" in path:
-                return {"accept-queue"}
+                return {"accept-queue" if kind == "blocking" else "accept-queue-try"}
             if "BindRequest" in path:
-                return {"bind-queue"}
+                return {"bind-queue" if kind == "blocking" else "bind-queue-try"}
         if name == "close" and "mpsc" in d and "Receiver" in d:
             if "UnboundedReceiver::<ws::Message>" in path:
                 return {"outq:close"}
